@@ -32,6 +32,23 @@ pub struct PropSpec {
     /// probes that must be non-zero in a batch, else the check is a harness error (exit 2)
     pub required_probes: &'static [&'static str],
     pub assumptions: &'static [&'static str],
+    /// twin run: a second plan derived from the first and a comparison of the two outcomes
+    pub twin: Option<fn(&Plan, &RunOut) -> Option<Violation>>,
+}
+
+/// Runs a plan with every oracle of its property, including the twin comparison if the
+/// property has one. Batch runs, the shrinker and replay all go through here.
+pub fn execute(plan: &Plan) -> Result<RunOut, String> {
+    let mut out = run_plan(plan)?;
+    if out.violations.is_empty() {
+        if let Some(tw) = crate::props::spec(&plan.property).and_then(|s| s.twin) {
+            if let Some(v) = tw(plan, &out) {
+                out.violations.push(v);
+            }
+            out.probes.extra.insert("twin_runs", 1);
+        }
+    }
+    Ok(out)
 }
 
 pub fn run_seed(batch_seed: u64, property: &str, index: u64) -> u64 {
@@ -221,7 +238,7 @@ pub fn run_batch(spec: &PropSpec, tier: &str, batch_seed: u64, runs: u64, thread
                     }
                     let seed = run_seed(batch_seed, spec.id, i);
                     let plan = scenarios::generate(spec.id, tier, seed, i);
-                    match run_plan(&plan) {
+                    match execute(&plan) {
                         Ok(out) => {
                             let nt = (spec.nontrivial)(&plan, &out);
                             agg.absorb(i, seed, &plan, &out, nt, findings);
@@ -254,7 +271,7 @@ pub fn run_batch(spec: &PropSpec, tier: &str, batch_seed: u64, runs: u64, thread
     for (i, hsh) in &first {
         let seed = run_seed(batch_seed, spec.id, *i);
         let plan = scenarios::generate(spec.id, tier, seed, *i);
-        if let Ok(out) = run_plan(&plan) {
+        if let Ok(out) = execute(&plan) {
             if out.trace_hash != *hsh {
                 mismatches += 1;
             }
@@ -365,7 +382,7 @@ pub fn replay_file(path: &str) -> i32 {
         }
     };
     let want = doc["violation"]["class"].as_str().unwrap_or("").to_owned();
-    match run_plan(&plan) {
+    match execute(&plan) {
         Err(e) => {
             eprintln!("plan could not be executed: {e}");
             2
@@ -436,7 +453,7 @@ pub fn check(spec: &PropSpec, tier: &str) -> i32 {
         new_classes += 1;
         println!("violation in run {index} (seed {seed}): class={} node={} frame={} t={}us\n  {}", v.class, v.node, v.frame, v.t_us, v.text);
         let sh = shrink::shrink(plan, &v.class, 600, Duration::from_secs(45));
-        let out = run_plan(&sh.plan).ok();
+        let out = execute(&sh.plan).ok();
         let mv = out.as_ref().and_then(|o| o.violations.iter().find(|x| x.class == v.class).cloned()).unwrap_or_else(|| v.clone());
         // a minimised plan may have become an instance of a known finding
         if let Some(f) = match_finding(&findings, spec.id, &sh.plan, &mv) {
